@@ -150,12 +150,8 @@ func nonNilIsAny(err error, matches []error) bool {
 
 		case interface{ Unwrap() []error }:
 			wrapped := u.Unwrap()
-			if more == nil {
-				// ensure append (up next) copies, just in case
-				more = wrapped[:len(wrapped):len(wrapped)]
-			} else {
-				more = append(more, wrapped...)
-			}
+			// copy: the slice belongs to the error value
+			more = append(more, wrapped...)
 		}
 
 		if len(more) == 0 {
